@@ -33,6 +33,11 @@ func genC19(cs *CaseSet, rng *Rng, tier string, dir string) {
 		if h == 1 || (tier == "thorough" && h%10 == 3) {
 			initLen = rng.Pick(33000, 58000)
 		}
+		// a board that fills the 64 KiB field to the last byte (it cannot take another post: reads and restarts only)
+		full := h == 2 || (tier == "thorough" && h%10 == 4)
+		if full {
+			initLen = rng.Pick(65535, 65534, 65533, 65532)
+		}
 		init := dataBytesNoLF(rng, initLen)
 		env := NewEnv(fmt.Sprintf("%s-%d", dir, h), EnvOpts{Board: string(init)})
 		env.StartDrain()
@@ -103,7 +108,11 @@ func genC19(cs *CaseSet, rng *Rng, tier string, dir string) {
 		nOps := 8 + rng.Intn(8)
 		for k := 0; k < nOps; k++ {
 			cc := users[rng.Intn(len(users))]
-			switch r := rng.Intn(10); {
+			r := rng.Intn(10)
+			if full && (r < 4 || r >= 8) {
+				r = 4 + rng.Intn(4)
+			}
+			switch {
 			case r < 4:
 				body := dataBytes(rng, rng.Pick(0, 1, 30, 200, 1500))
 				st, ann, rcpt, date := post(cc, body)
